@@ -9,6 +9,9 @@ export GOFLAGS=-mod=mod GOPROXY=off GOSUMDB=off GOTOOLCHAIN=local
 J=4
 if [ "${1:-}" = "-j" ]; then J=$2; shift 2; fi
 props=${PROPS:-$(python3 -c "import json;print(' '.join(sorted(set(p['property_id'] for p in json.load(open('/verif/MANIFEST.json'))['checks']))))")}
+# a snapshot of the checker binary, so that rebuilding it meanwhile does not mix versions
+VERIF_BIN=$(mktemp /tmp/verif.snap.XXXXXX); cp /verif/bin/verif "$VERIF_BIN"; chmod +x "$VERIF_BIN"
+trap 'rm -f "$VERIF_BIN"' EXIT
 items=("$@")
 if [ ${#items[@]} -eq 0 ]; then items=(/verif/seeded/*); fi
 one() {
@@ -23,15 +26,17 @@ one() {
   else
     hit=""
     for p in $props; do
-      out=$(/verif/bin/verif check --property $p --tier ${TIER:-quick} --repo "$wt" --evidence "$ev" 2>&1); rc=$?
+      out=$("$VERIF_BIN" check --property $p --tier ${TIER:-quick} --repo "$wt" --evidence "$ev" 2>&1); rc=$?
       if [ $rc -ne 0 ]; then
+        echo "$name $p rc=$rc: $(echo "$out" | grep -v '^VIOLATION' | head -2 | cut -c1-300 | tr '\n' ' ')" >> ${FAILLOG:-/tmp/battery_fail.log}
         rules=$(echo "$out" | grep -v "^VIOLATION\|^$p " | grep -o ": [A-Za-z0-9'-]* " | sort | uniq | tr -d ': \n' | head -c 60)
         hit="$hit $p"
       fi
     done
     echo "$name:${hit:- NONE}"
+    [ -n "${PROGRESS:-}" ] && echo "$name:${hit:- NONE}" >> "$PROGRESS"
   fi
   git -C /repo worktree remove --force "$wt"; rm -rf "$ev"
 }
-export -f one; export props
+export -f one; export props PROGRESS VERIF_BIN FAILLOG
 printf '%s\n' "${items[@]}" | xargs -P "$J" -I{} bash -c 'one {}' | sort
